@@ -596,6 +596,11 @@ func (e *Engine) skipTo(c *run) int64 {
 		return c.startSeq + 1
 	case types.SkipToFirst, types.SkipToLast, types.SkipToVariable:
 		if s := seqOfLabel(c, e.spec.SkipSymbol, e.spec.Skip == types.SkipToFirst, e.subsets); s >= 0 {
+			if s > c.startSeq {
+				return s // SQL:2016: matching resumes AT the row mapped to the variable
+			}
+			// The target is the first row of the match (an error in SQL:2016, it would
+			// find the same match again): resume at the following row instead.
 			return s + 1
 		}
 	}
